@@ -736,7 +736,22 @@ func (c *CheckCtx) raceRun() error {
 				var steps []*Step
 				for j := 0; j < 1+g.r.Intn(3); j++ {
 					api := g.pick("snapshot", "json", "yaml", "ssnap", "sjson")
-					steps = append(steps, &Step{Op: "match", API: api, Cfg: g.pick("c", "c", "ut"), Val: seqValue(api, g.r.Intn(3))})
+					st := &Step{Op: "match", API: api, Cfg: g.pick("c", "c", "ut", "jq", "jq"), Val: seqValue(api, g.r.Intn(3))}
+					if api == "json" || api == "sjson" || api == "yaml" {
+						if g.chance(0.5) {
+							// caller-owned []byte input, a larger document, and matchers whose callbacks run
+							// while other goroutines are inside the library
+							doc := fmt.Sprintf(`{"call":%d,"k":["v",1,2,3],"pad":%q}`, g.r.Intn(3), strings.Repeat("p", 2000+g.r.Intn(3000)))
+							path := "call"
+							if api == "yaml" {
+								doc = fmt.Sprintf("call: %d\npad: %s\n", g.r.Intn(3), strings.Repeat("p", 2000+g.r.Intn(3000)))
+								path = "$.call"
+							}
+							st.Val = bytesVal(doc)
+							st.Matchers = []*Matcher{{M: "custom", Paths: []string{path}, Ret: json.RawMessage(`"<custom>"`)}, {M: "any", Paths: []string{path}}}
+						}
+					}
+					steps = append(steps, st)
 				}
 				if g.chance(0.15) {
 					steps = []*Step{{Op: "skip", Kind: "Skip"}}
@@ -747,7 +762,9 @@ func (c *CheckCtx) raceRun() error {
 		}
 		mu.Unlock()
 		dir := c.Sc.Sub(fmt.Sprintf("race%d", i))
-		script := &Script{Trace: filepath.Join(dir, "trace.ndjson"), Configs: resolveCfgs(stdConfigs(), dir), Tests: tests, Clean: &CleanDef{Sort: i%2 == 0}, State: "end", Watch: []string{filepath.Join(dir, "nothing")}}
+		cfgs := stdConfigs()
+		cfgs["jq"] = &Cfg{Dir: sp("@/snaps"), JSON: &JSONCfg{Width: 40, Indent: "  ", SortKeys: true}} // one JSON option value shared by all parallel users
+		script := &Script{Trace: filepath.Join(dir, "trace.ndjson"), Configs: resolveCfgs(cfgs, dir), Tests: tests, Clean: &CleanDef{Sort: i%2 == 0}, State: "end", Watch: []string{filepath.Join(dir, "nothing")}}
 		sb, _ := json.Marshal(script)
 		sp := filepath.Join(dir, "script.json")
 		os.WriteFile(sp, sb, 0o644)
